@@ -108,6 +108,7 @@ structure FeatOut (fx : Fixes) (U : List (List Glyph)) (tag : Tag) (s s' : St) (
     s.named.lookup n = some id ∨ ∃ reg l, ((reg, Src.Item.defn l), id) ∈ items.zip ids ∧ l.name = some n
   feats : s'.features = ((evs.foldl evStep (a0 tag s.defaultSystems)).finish).foldl
     (fun fs (x : Sys × List LookupId) => featInsert (tag, x.1.2, x.1.1) x.2 fs) s.features
+  refsBack : RefsBack s items
 
 theorem tag_fold (evs : List Ev) (a : Active) : (evs.foldl evStep a).tag = a.tag := by
   induction evs generalizing a with
@@ -155,7 +156,8 @@ theorem gen_feature (fx : Fixes) (U : List (List Glyph)) (tag : Tag) (s : St) (b
       namedBelow := hnb
       namedNew := fun n id h => Or.inl h
       grew := Grew.refl s
-      active := rfl } }
+      active := rfl
+      refsBack := by intro pre reg n post he; cases pre <;> simp at he } }
   obtain ⟨evs2, ids2, h2, hs2⟩ := gen_body fx U tag s.defaultSystems s body {} (featureStart s tag) [] [] used hinit hbody
   generalize body.foldl (St.stmt fx) (featureStart s tag) = s2 at h2 ⊢
   obtain ⟨evs3, ids3, h3, hs3, hcur3, _, _, _, _⟩ := gen_flush fx U tag s.defaultSystems s _ s2 evs2 ids2 _ h2
@@ -193,7 +195,8 @@ theorem gen_feature (fx : Fixes) (U : List (List Glyph)) (tag : Tag) (s : St) (b
       namedNew := by rw [f6]; exact h3.o.namedNew
       feats := by
         rw [f12, tag_fold, h3.o.ctx.2.2]
-        rfl }
+        rfl
+      refsBack := h3.o.refsBack }
   · rw [hs3, hs2]; simp [regScript, sysEvs]
 
 end Fontc.FeaCompile
